@@ -56,7 +56,7 @@ def run(ctx):
     debug_fast = os.environ.get("VERIF_BG_DEBUG_SKIP_EXH") == "1"  # development aid: the run then ends INCONCLUSIVE
     for cfg in ([] if debug_fast else EXH[ctx.tier]):
         ctx.tlc_check("Txn.tla", cfg, timeout=ctx.q(1800, 7200))
-    # the code's actual handling of a staged-root conflict (named deviation StagedConflict = "ours") must break StagedMerged on the model
+    # negative control: the former handling of a staged-root conflict (named deviation StagedConflict = "ours") must break StagedMerged on the model
     if not debug_fast:
         bg.tlc_expect_violation(ctx, "Txn.tla", "c23_neg_staged_ours.cfg", "StagedProp")
     env = {"VERIF_ONLY": "c23"}
@@ -93,7 +93,7 @@ def run(ctx):
                         "schema changes inside transactions are not driven",
                         "statement-granular interleavings (R) plus unconstrained goroutine interleavings (T); no hook between the working-set read and the CAS of doCommit",
                         "reading of the statement: a conflict while merging the STAGED root or a moved HEAD counts like a conflict in the working root "
-                        "(retryable error, no trace); autocommit statements whose commit is refused are not generated"]
+                        "(retryable error, no trace) - dolt behaves so since commit 5aeba12; autocommit statements whose commit is refused are not generated"]
     ctx.notes.append("dolt_commit that finds nothing to commit commits the SQL transaction and then returns the error 'nothing to commit' "
                      "(documented in dolt_commit.go); treated as a successful transaction commit, not as a failed transaction")
     if debug_fast:
